@@ -894,10 +894,55 @@ fn run_sob(ctx: &mut Ctx, c: &Value) -> R<()> {
     Ok(())
 }
 
+/// Revocation lists of many entries in the order a CA would write them (by revocation, not by number): built list and decoded
+/// twin answer every question alike - plainly, with the serial cache switched on, and through the iterator - past 8, 64, 256
+/// and 1000 entries too.
+fn long_crls(ctx: &Ctx, s: &mut Summary) {
+    let pki = &ctx.pki;
+    let k0 = pki.key("k0");
+    let v = Validity::new(Time::utc(2024, 1, 1, 0, 0, 0), Time::utc(2034, 1, 1, 0, 0, 0));
+    for n in [1usize, 8, 9, 63, 64, 65, 255, 256, 257, 1000] {
+        let r = guarded(|| -> Result<(), String> {
+            // serial numbers in a scrambled order, of every length from one octet to twenty
+            let serials: Vec<Serial> = (0..n).map(|i| {
+                let x = (i as u64 * 7919 + 13) % 100_003;
+                if i % 5 == 4 { let mut a = [0x5Au8; 20]; a[0] = 0x01; a[19] = (x % 251) as u8; a[18] = (x / 251) as u8; a[10] = i as u8; Serial::from_array(a).unwrap() } else { Serial::from(x * if i % 3 == 0 { 1 } else { 65_537 }) }
+            }).collect();
+            let entries: Vec<CrlEntry> = serials.iter().map(|x| CrlEntry::new(*x, v.not_before())).collect();
+            let built = TbsCertList::new(RpkiSignatureAlgorithm::default(), pki.pubkey("k0").to_subject_name(), v.not_before(), v.not_after(), entries,
+                                         pki.pubkey("k0").key_identifier(), Serial::from(7u64)).into_crl(&pki.signer, &k0).map_err(|e| e.to_string())?;
+            let mut twin = Crl::decode(built.to_captured().into_bytes()).map_err(|e| format!("does not decode: {e}"))?;
+            let mut built = built;
+            let absent = [Serial::from(1u64), Serial::from(100_004u64), Serial::from(u64::MAX)];
+            for cached in [false, true] {
+                if cached { built.cache_serials(); twin.cache_serials(); }
+                for (k, x) in serials.iter().enumerate() {
+                    if !built.contains(*x) || !twin.contains(*x) {
+                        return Err(format!("entry {k} of {n} (serial {x}): built list contains = {}, decoded twin = {} (serial cache {})", built.contains(*x), twin.contains(*x), cached));
+                    }
+                }
+                for x in absent.iter().filter(|x| !serials.contains(x)) {
+                    if built.contains(*x) || twin.contains(*x) { return Err(format!("serial {x} is not on the list of {n} but contains() says so (serial cache {cached})")); }
+                }
+            }
+            let listed: Vec<Serial> = twin.revoked_certs().iter().map(|e| e.user_certificate).collect();
+            if listed != serials { return Err(format!("the decoded list has {} entries, not the {n} written ones in order", listed.len())); }
+            Ok(())
+        });
+        match r {
+            Ok(Ok(())) => {}
+            Ok(Err(m)) => s.violation("crl:long-list", m, json!({"entries": n})),
+            Err(m) => s.violation("crl:panic", m, json!({"entries": n})),
+        }
+        s.evals(1);
+    }
+}
+
 pub fn replay(args: &[String]) {
     let cases = read_cases(&args[0]);
     let mut s = Summary::new();
     let mut ctx = Ctx::new();
+    if cases.iter().any(|c| c["kind"] == "crl") { long_crls(&ctx, &mut s); }
     for c in &cases {
         let op = c["op"].as_str().unwrap_or("build");
         match guarded(|| match op { "steps" => run_steps(&mut ctx, c), "sob" => run_sob(&mut ctx, c), _ => run_case(&mut ctx, c) }) {
